@@ -16,6 +16,35 @@ def showRing (r : Array P) : String := " ".intercalate (r.toList.map fun p => s!
 def showRings (rs : Array (Array P)) : String := "[" ++ "|".intercalate (rs.toList.map showRing) ++ "]"
 def showQuads (qs : List Quad) : String := " ".intercalate (qs.map fun q => s!"{q.x},{q.y}")
 
+/-- `snap`/`chains` share their arguments: depth minX minY res keep reverse ignoreOutside nlev levels... nrings (n x y ...)* -/
+def snapOp (rest : List String) (chainsOnly : Bool) : String :=
+  let xs := parseInts rest
+  if xs.size < 9 then "bad-op" else
+  let g : Grid := ⟨xs[1]!, xs[2]!, xs[3]!, xs[0]!.toNat⟩
+  let cfg : Config := ⟨xs[4]! == 1, xs[5]! == 1, xs[6]! == 1⟩
+  let nlev := xs[7]!.toNat
+  let levels := ((xs.extract 8 (8 + nlev)).toList.map Int.toNat)
+  let nr := xs[8 + nlev]!.toNat
+  let (rings, _) := Id.run do
+    let mut pos := 9 + nlev
+    let mut rings : Array (Array Pt) := #[]
+    for _ in [0 : nr] do
+      let n := xs[pos]!.toNat
+      rings := rings.push (toPts (xs.extract (pos + 1) (pos + 1 + 2 * n)))
+      pos := pos + 1 + 2 * n
+    return (rings, pos)
+  if chainsOnly then
+    match routedChains g rings levels with
+    | .ok res => "ok " ++ " ".intercalate (res.map fun (l, chains) => s!"L{l}:[" ++ "|".intercalate (chains.toList.map showRing) ++ "]")
+    | .error e => "panic " ++ e
+  else
+  match snapPolygon g rings levels cfg with
+  | .ok res =>
+    let sorted := res.toArray.qsort (fun a b => a.1 < b.1)
+    "ok " ++ " ".intercalate (sorted.toList.map fun (l, polys) =>
+      s!"L{l}:[" ++ ";".intercalate (polys.toList.map fun pg => "|".intercalate (pg.toList.map showRing)) ++ "]")
+  | .error e => "panic " ++ e
+
 def handle (line : String) : String :=
   match line.trimAscii.toString.splitOn " " with
   | ["tz", xs, ys] =>
@@ -71,29 +100,8 @@ def handle (line : String) : String :=
     match cleanupNewRing ring (o == "1") (fun p => flags.contains p) with
     | .ok s => s!"ok O{showRings s.outers} I{showRings s.inners} PL{showRings s.pointsAndLines}"
     | .error e => "panic " ++ e
-  | "snap" :: rest =>
-    let xs := parseInts rest
-    -- depth minX minY res keep reverse nlev levels... nrings (n x y ...)*
-    if xs.size < 8 then "bad-op" else
-    let g : Grid := ⟨xs[1]!, xs[2]!, xs[3]!, xs[0]!.toNat⟩
-    let cfg : Config := ⟨xs[4]! == 1, xs[5]! == 1⟩
-    let nlev := xs[6]!.toNat
-    let levels := ((xs.extract 7 (7 + nlev)).toList.map Int.toNat)
-    let nr := xs[7 + nlev]!.toNat
-    let (rings, _) := Id.run do
-      let mut pos := 8 + nlev
-      let mut rings : Array (Array Pt) := #[]
-      for _ in [0 : nr] do
-        let n := xs[pos]!.toNat
-        rings := rings.push (toPts (xs.extract (pos + 1) (pos + 1 + 2 * n)))
-        pos := pos + 1 + 2 * n
-      return (rings, pos)
-    match snapPolygon g rings levels cfg with
-    | .ok res =>
-      let sorted := res.toArray.qsort (fun a b => a.1 < b.1)
-      "ok " ++ " ".intercalate (sorted.toList.map fun (l, polys) =>
-        s!"L{l}:[" ++ ";".intercalate (polys.toList.map fun pg => "|".intercalate (pg.toList.map showRing)) ++ "]")
-    | .error e => "panic " ++ e
+  | "snap" :: rest => snapOp rest false
+  | "chains" :: rest => snapOp rest true
   | ["page", ps, ns] =>
     match ps.toNat?, ns.toNat? with
     | some p, some n =>
